@@ -6,6 +6,7 @@
 -/
 import CnvVerif.Basic
 import CnvVerif.Generated.Consts
+import CnvVerif.Generated.CallConsts
 import CnvVerif.Model.Interval
 namespace CnvVerif
 
@@ -137,7 +138,7 @@ def callRow (cfg : CallCfg) (m : Method) (thr : List Rat) (first : String) (hasB
   match purityActive cfg.purity with
   | some _ =>
     let a := absoluteOf r x cfg.purity row.t
-    let ratio := rescaledRatio cfg.ploidy cfg.hapX cls a (1/1000)
+    let ratio := rescaledRatio cfg.ploidy cfg.hapX cls a Generated.MIN_ABS_VAL
     match m with
     | .none => { cn := none, ratio := some ratio, cn1 := none, cn2 := none, absolute := a }
     | _ =>
